@@ -215,6 +215,10 @@ finding(
     "P77", ["C01"], "open", "a parameter without description: its default is not written into the docstring in any style (the `Defaults to` sentence only rides on a description) and ReST without types writes no line for it at all - default / parameter lost on the way back",
     witnesses={"C01": [I([["a", {"typ": "int", "doc": "the a"}], ["b", {"typ": "int", "doc": "", "default": 5}]], cells=[["google", True, False, True, False], ["rest", True, False, False, False]])]},
 )
+finding(
+    "P78", ["C15"], "open", "header prose that MENTIONS `Returns` / `Parameters` inside a line, in a docstring whose section is the return entry alone (no parameters): the mentioned word is taken for the section start - header and footer overlap (the three parts no longer tile the text) or the boundaries land inside the header (the source notes `FPs possible for \"Parameters\" and \"Returns\" randomly thrown into normal doc_str`)",
+    witnesses={"C15": [{'style': 'rest', 'text': 'hw0 Returns\nhw1\n:return: rd\n:rtype: ```int```', 'indent': 0, 'header_lines': ['hw0 Returns', 'hw1'], 'params': [], 'rtyp': 'int', 'footer': False, 'footer_lines': [], 'section': ':return: rd\n:rtype: ```int```', 'lead_nl': False, 'mention': 'Returns'}]},
+)
 finding("P26", ["C07"], "open", "doctrans drops comments inside a rewritten multi-line def header")
 finding("P27", ["C07"], "open", "doctrans turns a one-line `def f(a=1): return a` into invalid Python")
 finding("P28", ["C07"], "open", "doctrans does not recognise a raw docstring r\"\"\"...\"\"\": a second string is inserted")
